@@ -57,6 +57,12 @@ func c13Cases(tier string) []c13Case {
 			cs = append(cs, c13Case{Kind: "stall-mid", Offset: off, Mode: m})
 		}
 		cs = append(cs, c13Case{Kind: "stop", Mode: m})
+		if m == "tcp" {
+			// Prometheus gives up and disconnects a moment BEFORE the proxy's own scrape timeout fires
+			for _, off := range []int{0, 1, 60} {
+				cs = append(cs, c13Case{Kind: "stall-mid-client-quits", Offset: off, Mode: m})
+			}
+		}
 		// the coordinator begins a transfer (normal -> in_transfer, the counter restarts) while a scrape is in flight,
 		// and that scrape ends differently from the one before: the published status must show ITS outcome
 		for _, gz := range []bool{false, true} {
@@ -321,7 +327,7 @@ func runC13Case(w *core.WorkerCtx, idx int, ld *c13Load) *core.CaseResult {
 		rg.mt.set(host, &bodyScript{Status: c.Status, Body: []byte("nope\n")})
 	case "stall-before":
 		rg.mt.set(host, &bodyScript{StallBefore: true})
-	case "stall-mid":
+	case "stall-mid", "stall-mid-client-quits":
 		rg.mt.set(host, &bodyScript{Body: body, Stall: true, StallAt: c.Offset, Chunks: []int{41, 41, 41, 41}})
 	case "stop":
 		if _, _, err := rg.in.Call("POST", "/api/v1/status/extra_config/", &prom.ExtraConfig{StopScrapeReason: "disk of prometheus is full"}, nil); err != nil {
@@ -422,6 +428,29 @@ func runC13Case(w *core.WorkerCtx, idx int, ld *c13Load) *core.CaseResult {
 		if err != nil {
 			res.Inconcl = "update during the scrape: " + err.Error()
 			return res
+		}
+	} else if c.Kind == "stall-mid-client-quits" {
+		rg.ensureSrv()
+		pu, _ := url.Parse(rg.srv.URL)
+		quick := &http.Client{Transport: &http.Transport{Proxy: http.ProxyURL(pu), DisableCompression: true, DisableKeepAlives: true}, Timeout: 400 * time.Millisecond}
+		resp, err := quick.Get(reqURL)
+		if err != nil {
+			o.Aborted, o.ReadErr = true, err.Error()
+		} else {
+			o.Status = resp.StatusCode
+			b, err := io.ReadAll(resp.Body)
+			resp.Body.Close()
+			o.Body = b
+			if err != nil {
+				o.Aborted, o.ReadErr = true, err.Error()
+			}
+		}
+		// the proxy's own attempt ends when ITS timeout (1 s) fires; wait for the bookkeeping
+		for i := 0; i < 400; i++ {
+			if st := status(); st != nil && st.ScrapeTimes > before {
+				break
+			}
+			time.Sleep(25 * time.Millisecond)
 		}
 	} else {
 		o = scrape(reqURL)
